@@ -264,7 +264,8 @@ class FnWeaver:
                         and s.tok_text(c) in LOG_LEVELS and s.is_p(d, '!') and e is not None and s.is_p(e, '(')):
                     close = s.matches()[e]
                     # refuse side-effecting arguments: any call other than .len()/.packet_type() style getters
-                    inner = s.text[s.toks[e][2]:s.toks[close][1]]
+                    inner = ''.join(s.text[s.toks[t_i][1]:s.toks[t_i][2]] if s.toks[t_i][0] != 'str' else '""'
+                                    for t_i in range(e + 1, close))      # string literals (the format text) are not code
                     for m in re.finditer(r'([A-Za-z_][A-Za-z0-9_]*)\s*\(', inner):
                         if m.group(1) not in ('len', 'packet_type'):
                             raise WeaveError('%s: log:: call with call `%s(` in its arguments; rule D1 refuses' % (self.qual, m.group(1)))
@@ -521,7 +522,7 @@ class FnWeaver:
             if a is None:
                 if r1.search(ln):
                     a = x + (len(ln) - len(ln.lstrip()))
-                    if r2.search(ln) and rx_from != rx_to:
+                    if r2.search(ln):
                         b = y
                         break
             elif r2.search(ln):
@@ -695,6 +696,17 @@ class FnWeaver:
         self.edits.append((start, start, [(' ' + header.strip() + ' { ', 'repo', self.rel, ln)]))
         self.edits.append((end, end, [(' }', 'repo', self.rel, self.line_at(end))]))
         self.rules.add('D10')
+
+    def enumerate_to_index(self):
+        """D22 (automatic): `for (i, x) in E.iter().enumerate() {` becomes `for i in 0..E.len() { let x = &E[i];`
+        (Verus has no `Enumerate`; for arrays, slices and Vecs both forms visit the same (index, &element) pairs in the same order)."""
+        for m in list(re.finditer(r'for \((\w+), (\w+)\) in ([\w\.]+)\.iter\(\)\.enumerate\(\) \{', self.text)):
+            i_v, x_v, e = m.group(1), m.group(2), m.group(3)
+            a, b = m.start(), m.end()
+            # header up to (not including) the `{`, so that a loop invariant can still be placed in front of the brace
+            self.edits.append((a, b - 1, [('for %s in 0..%s.len() ' % (i_v, e), 'repo', self.rel, self.line_at(a))]))
+            self.edits.append((b, b, [(' let %s = &%s[%s];' % (x_v, e, i_v), 'repo', self.rel, self.line_at(a))]))
+            self.rules.add('D22')
 
     def closure_tuple_params(self):
         """D16 (automatic): a closure whose single parameter is a tuple pattern, `|(a, b)| E`, becomes `|__cpK| { let (a, b) = __cpK; E }`
@@ -1021,6 +1033,12 @@ def weave(unit_path):
             if st2 != stripped:
                 info['rules'].add('D12')
             stripped = st2
+            if kind == 'const':
+                # D21: a reference-typed const gets its (implicit) 'static lifetime spelled out: inside verus! the elision is rejected
+                st2 = re.sub(r'(const\s+\w+\s*:\s*)&(?!\s*\')', r"\1&'static ", stripped, count=1)
+                if st2 != stripped:
+                    info['rules'].add('D21')
+                stripped = st2
             # keep line structure: stripped text keeps the newlines of non-removed parts only; map by first line
             out.emit(stripped + '\n', 'repo', rel, first_line)
             info['items'].append(dict(kind=kind, file=rel, name=name, line=first_line))
@@ -1062,6 +1080,7 @@ def weave(unit_path):
                 fw.deref_for_patterns()
                 fw.local_consts_to_let()
                 fw.closure_tuple_params()
+                fw.enumerate_to_index()
             fw.rename_underscore_params()
             attrs = []
             safety = list(info['props'])
